@@ -442,3 +442,9 @@ Fixpoint ev_opens (l : list ev) : list (nat * fmode) :=
   | EOpen path m _ :: r => ev_opens r ++ [(path, m)]
   | _ :: r => ev_opens r
   end.
+
+(* builtins/utils.rs print_stdout_with_capture / print_stderr_with_capture, for a builtin that runs in the shell itself with
+   capture on (`$(builtin ...)`): `if capture { cr.stdout = info } else { print_stdout(..) }` -- the text goes into the
+   CommandResult (i.e. the substitution resp. the discarded captured stderr) WHATEVER the command's own redirections say;
+   the redirection targets are only probed (created / truncated) by run_single_program. *)
+Definition captured_builtin_text (rs : list redir) : obj * obj := (OPipeW PCapOut, OPipeW PCapErr).
